@@ -1,4 +1,5 @@
 import Amqp.Txn
+import Amqp.TxnRoute
 import Driver.Util
 
 namespace Driver.Txn
@@ -19,6 +20,14 @@ def parseOp (w : String) : Option Op :=
   | ["e"] => some .sessionEnd
   | _ => none
 
+/-- `handle:txn:tag:more:aborted` -/
+def parseFrame (w : String) : Option Amqp.TxnRoute.TFrame :=
+  match w.splitOn ":" with
+  | [h, t, tag, more, ab] => do
+    let txn ← if t == "-" then some none else (t.toNat?).map some
+    pure { handle := ← h.toNat?, txn := txn, tag := ← bool01 tag, more := ← bool01 more, aborted := ← bool01 ab, key := 0 }
+  | _ => none
+
 def showOut : Out → String
   | .declared id => s!"D{id}" | .accepted => "A" | .rejectedUnknown => "RU" | .buffered => "B"
   | .delivered => "V" | .sessionError => "SE" | .none => "-"
@@ -31,6 +40,12 @@ def step (ws : List String) : Option String :=
     let outs := if outs.isEmpty then "-" else " ".intercalate (outs.map showOut)
     let del := if s.delivered.isEmpty then "-" else " ".intercalate (s.delivered.map (fun p => s!"{p.link}.{p.label}"))
     pure s!"{outs} | {del}"
+  | "route" :: frames => do
+    let fs ← frames.mapM parseFrame
+    let (_, rs) := Amqp.TxnRoute.run Amqp.TxnRoute.St.init fs
+    pure (" ".intercalate (rs.map (fun r => match r with
+      | Amqp.TxnRoute.Route.direct => "D"
+      | Amqp.TxnRoute.Route.withheld id => s!"W{id}")))
   | _ => none
 
 end Driver.Txn
